@@ -289,3 +289,24 @@ Theorem C09_del_invariant_gives_read_side :
   forall (s : slots H) (R : list H) (m : mstate H), MapMutRemove.Inv HO s R m -> consistent HO s R m.
 Proof. exact MapMutRemove.Inv_consistent. Qed.
 Print Assumptions C09_del_invariant_gives_read_side.
+
+(** ** EVERY history, deletions included (Proofs/MapMutRemoveTidy.v, MapMutUnify2.v): one invariant
+    ([MapMutAdd.Inv], with "stores only what is allowed" built in) is preserved by general blocks
+    (deletions of any remembered leaves - siblings, subtrees, whole trees - followed by additions incl.
+    remap and empty roots), Prune, Ingest and Verify-with-remember, on full AND partial forests.  So from
+    the empty forest every valid sequence of these operations runs on the mirror without error and ends
+    consistent with the reference.  (Undo is not part of this theorem: see C06.) *)
+From Utreexo Require Proofs.MapMutUnify2.
+
+Theorem C09_every_history :
+  forall (H : Type) (HO : ops H), ops_ok HO ->
+  (forall x y, op_eqb HO (op_hash2 HO x y) (op_empty HO) = false) ->
+  forall (T : N) (full : bool) (l : list (MapMutUnify2.bop H)),
+    T <= 63 -> MapMutUnify2.hvalid2 H HO full ([], []) l ->
+    exists m,
+      MapMutUnify2.hrun2 H HO full ([], []) (mkM [] [] 0 T full) l = Some m /\
+      MapMutAdd.Inv H HO (fst (MapMutUnify2.hfinal2 H HO full ([], []) l))
+                         (snd (MapMutUnify2.hfinal2 H HO full ([], []) l)) m /\
+      ms_full m = full.
+Proof. exact MapMutUnify2.history2_ok. Qed.
+Print Assumptions C09_every_history.
